@@ -51,7 +51,7 @@ static void *mkkey(uint64_t k) {
     if (k == 0) return NULL;
     if (!key_fresh || key_kind == K_PTR) return interned_key(k);
     unsigned char *slot = scratch[scratch_i++ % NSCRATCH];
-    memset(slot, 0xA5, 32);
+    memset(slot, (unsigned char)(scratch_i * 37 + 1), 32);   /* the bytes after the key differ from call to call */
     memcpy(slot, interned_key(k), key_kind == K_STR ? strlen(intern_str[intern(k)]) + 1 : (size_t)key_len_bytes);
     return slot;
 }
@@ -61,7 +61,7 @@ static void *mkkey_stored(uint64_t k) {
     if (!key_fresh || key_kind == K_PTR) return interned_key(k);
     if (arena_i >= NARENA) { fprintf(stderr, "key arena full\n"); exit(3); }
     unsigned char *slot = arena[arena_i++];
-    memset(slot, 0x5A, 32);
+    memset(slot, (unsigned char)(arena_i * 29 + 3), 32);
     memcpy(slot, interned_key(k), key_kind == K_STR ? strlen(intern_str[intern(k)]) + 1 : (size_t)key_len_bytes);
     return slot;
 }
